@@ -121,13 +121,20 @@ def check_c02(pid, tier, seed, replay):
         mc_opt(ck, "opt2", 3, 14, invs=(w,), expect_violation=w)
     mc_opt(ck, "opt1", 3, 12, invs=("Reach_SharedSlotUsed",), expect_violation="Reach_SharedSlotUsed")
     # (T) loops beyond the real budget, reads in the middle, exits, shared slots ...
-    tcases = [{"prog": p, "input": M.cps(i)} for p, i in loop_programs()]
-    tcases += M.gen_cases(rng, 250 if quick else 5000)
+    gen = M.gen_cases(rng, 250 if quick else 5000)
+    nfixed = len(M.gen_cases(random.Random(0), 0))
+    # the fixed families (loops of 98..202 rounds ...) need a long reference run; the generated programs a shorter one
+    tcases = [{"prog": p, "input": M.cps(i)} for p, i in loop_programs()] + gen[:nfixed]
     work = tmpdir("c02_T")
     cpath = os.path.join(work, "cases.json")
     M.write_cases(cpath, tcases)
     obs = M.run_obs(ck, cpath, "T", levels="0,1,2", bound=2200, timeout_ms=1500)
-    M.validate_traces(ck, obs, 14, classify_c02, "T")
+    M.validate_traces(ck, obs, 14, classify_c02, "T-families")
+    cpath2 = os.path.join(work, "cases_gen.json")
+    M.write_cases(cpath2, gen[nfixed:])
+    obs = M.run_obs(ck, cpath2, "Tgen", levels="0,1,2", bound=700, timeout_ms=800)
+    M.validate_traces(ck, obs, 14, classify_c02, "T-generated")
+    tcases = tcases + gen[nfixed:]
     ck.cov["vacuity"]["T_programs"] = len(tcases)
     ck.cov["rule"] = "M: HyOptimize refines HyMachine on every program of the slices; R: those programs through `hyeong run -O0/-O1/-O2`; T: loop/IO program families and seeded structured programs"
     return ck.finish()
